@@ -18,6 +18,7 @@ import (
 	"context"
 	"errors"
 	"fmt"
+	"slices"
 	"sort"
 	"strings"
 	"sync"
@@ -540,12 +541,19 @@ func (d *Datastore) runDeviationUpdate(ctx context.Context, dm map[string]sdcpb.
 			continue
 		}
 
-		intentsUpdates := d.cacheClient.Read(ctx, d.Name(), &cache.Opts{
-			Store:         cachepb.Store_INTENDED,
-			Owner:         "",
-			Priority:      0,
-			PriorityCount: 0,
+		// read all priorities of the path. A read with priority 0 only returns the entries of the
+		// highest priority, so that a lower precedence intent could never be reported as overruled.
+		intentsUpdatesAll := d.cacheClient.Read(ctx, d.Name(), &cache.Opts{
+			Store:    cachepb.Store_INTENDED,
+			Priority: -1,
 		}, [][]string{upd.GetPath()}, 0)
+		// the read is a prefix read, only keep the entries of exactly this path
+		intentsUpdates := make([]*cache.Update, 0, len(intentsUpdatesAll))
+		for _, iu := range intentsUpdatesAll {
+			if slices.Equal(iu.GetPath(), upd.GetPath()) {
+				intentsUpdates = append(intentsUpdates, iu)
+			}
+		}
 		if len(intentsUpdates) == 0 {
 			log.Debugf("%s: has unhandled config %v: %v", d.Name(), upd.GetPath(), v)
 			// TODO: generate an unhandled config deviation
